@@ -154,15 +154,15 @@ def check(ctx):
     fs = ctx.builder().summarize(ff, self_cls=cls)
     lam = None
     for x in ir.walk(fs.ret()):
-        if x[0] == "call" and x[1][0] == "attr" and x[1][2] == "apply" and x[2] and x[2][0][0] == "lambda":
+        if x[0] == "call" and x[1][0] == "attr" and x[1][2] == "apply" and x[2] and x[2][0][0] in ("lambda", "closure"):
             lam = x
     ctx.require(lam is not None, f"{ff.where()}: groupby(..).apply(lambda ..) not found")
     fb = None
     bb = ctx.builder()
     fs2 = bb.summarize(ff, self_cls=cls)
     for x in ir.walk(fs2.ret()):
-        if x[0] == "call" and x[1][0] == "attr" and x[1][2] == "apply" and x[2] and x[2][0][0] == "lambda":
-            fb = bb.lambda_apply(x[2][0], [("param", "g")])
+        if x[0] == "call" and x[1][0] == "attr" and x[1][2] == "apply" and x[2] and x[2][0][0] in ("lambda", "closure"):
+            fb = bb.apply_callable(x[2][0], [("param", "g")])
     ctx.require(fb is not None and fb[0] == "call" and fb[2] and fb[2][0][0] == "dict", f"{ff.where()}: per-group statistics are not a pd.Series({{..}})")
     d = dict((a[1], v) for a, v in fb[2][0][1] if a[0] == "const")
     G = ("param", "g")
@@ -294,8 +294,8 @@ def check(ctx):
     okb = False
     if bt is not None:
         ap = bt[1][1]
-        if ap[0] == "call" and ap[1][0] == "attr" and ap[1][2] == "apply" and ap[2] and ap[2][0][0] == "lambda":
-            body2 = mb.lambda_apply(ap[2][0], [("param", "g")])
+        if ap[0] == "call" and ap[1][0] == "attr" and ap[1][2] == "apply" and ap[2] and ap[2][0][0] in ("lambda", "closure"):
+            body2 = mb.apply_callable(ap[2][0], [("param", "g")])
             dd = dict((a[1], v) for a, v in body2[2][0][1]) if body2[0] == "call" and body2[2] and body2[2][0][0] == "dict" else {}
             Gp = ("param", "g")
             Lt = ir.I(("sub", Gp, ("fstr", (("const", "last_election_results_"), ("param", "estimand")))))
